@@ -20,7 +20,7 @@ strengthened = {
  "C12-3": "missed at first: uses were only generated at top level; uses inside quotes/lists with labels that start or end with a line ending added",
  "C14-3": "missed at first: no input started with U+FEFF; fragment added",
  "C13-4": "missed at first: the hard-break shape predicate accepted a bare backslash; tightened to backslash + line ending as the property states",
- "C04-5": "missed at first: no run of exactly 32 backticks; enumerated check run_lengths added (37 units x 14 templates x every length 1..140 and around 256/512/999/1024; thorough to 1100)",
+ "C04-5": "missed at first: no run of exactly 32 backticks; enumerated check run_lengths added (37 units x 14 templates x every length 1..40 and around every power of two up to 1024; thorough every length to 1100)",
  "C04-6": "missed at first: no walk was ever cut short; the pipeline now aborts walks by Pre/Post at several ordinals and then formats, renders and walks again",
  "C06-6": "missed at first by C06 (caught by C12): the model's labels were unique; competing definitions (also in another case, inside quotes) and definitions that follow their uses added to the model",
  "C07-6": "missed at first by C07 and C08 (caught by C01): no long document of many root blocks; gen.LongDoc added, C08 check long_documents and a streaming entry with incremental rewriting in C07 (check streamed_long)",
